@@ -1684,6 +1684,12 @@ func c10RunConfig(c *Ctx, g *c10Cfg, nLists int) {
 		c.Step("cfg %d pipelined system reads (%d texts)", g.Idx, len(pipeQs))
 		c10Pipelined(x, k4.cl, append(pipeQs, "SELECT * FROM system.local", "SELECT * FROM system.peers", "SELECT count(*) FROM system.peers"))
 	}
+	// the same table read by its bare name: first with no keyspace (not the proxy's table: whatever comes back is the
+	// backend's business), then - the same text - after USE system, where it is the proxy's table and nothing else
+	if ku := dial(bed, primitive.ProtocolVersion4); ku != nil {
+		c10UnqualifiedAroundUse(x, ku.cl)
+		ku.cl.Close()
+	}
 	closeBed(bed, k4, k3)
 
 	// restart: a new proxy with the same configuration presents the same tables
@@ -2095,4 +2101,33 @@ func c10Pipelined(x *c10Run, cl *rawcql.Client, qs []string) {
 		}
 	}
 	r.NonTrivial(fmt.Sprintf("pipelined/%s/%d-texts", x.g.shape(), len(qs)))
+}
+
+// c10UnqualifiedAroundUse: see the call site.
+func c10UnqualifiedAroundUse(x *c10Run, cl *rawcql.Client) {
+	r := x.r
+	opts := &message.QueryOptions{Consistency: primitive.ConsistencyLevelOne}
+	texts := []string{"SELECT * FROM local", "SELECT * FROM peers", "SELECT key, host_id, rpc_address, data_center FROM local"}
+	for i, q := range texts {
+		_, _ = cl.Call(int16(100+i), &message.Query{Query: q, Options: opts}, 20*time.Second)
+	}
+	if f, err := cl.Call(110, &message.Query{Query: "USE system", Options: opts}, 20*time.Second); err != nil || f.OpCode != primitive.OpCodeResult {
+		r.Inconc(fmt.Sprintf("cfg %d: USE system not answered with a result", x.g.Idx))
+		return
+	}
+	for i, q := range texts {
+		qualified := strings.Replace(strings.Replace(q, "FROM local", "FROM system.local", 1), "FROM peers", "FROM system.peers", 1)
+		a, errA := cl.Call(int16(120+2*i), &message.Query{Query: q, Options: opts}, 20*time.Second)
+		b, errB := cl.Call(int16(121+2*i), &message.Query{Query: qualified, Options: opts}, 20*time.Second)
+		r.Eval(1)
+		if errA != nil || errB != nil {
+			r.Inconc(fmt.Sprintf("cfg %d: no reply to %q / %q after USE system", x.g.Idx, q, qualified))
+			return
+		}
+		r.Obs("unqualified_reads_after_use_system", 1)
+		if a.OpCode != b.OpCode || !bytes.Equal(a.Body, b.Body) {
+			x.violate("C10/unqualified-read-after-use-system-differs", fmt.Sprintf("on one connection %q was sent before and after USE system; after it the answer (opcode %#x, %d bytes) differs from the answer to %q (opcode %#x, %d bytes; first difference at byte %d)", q, int(a.OpCode), len(a.Body), qualified, int(b.OpCode), len(b.Body), firstDiff(a.Body, b.Body)), nil)
+			return
+		}
+	}
 }
